@@ -426,6 +426,11 @@ PlayerRedeemChips 增購籌碼
   - 適用時機: 增購
 */
 func (te *tableEngine) PlayerRedeemChips(joinPlayer JoinPlayer) error {
+	// same lock as PlayerReserve: the open step replaces te.table by a clone under this lock,
+	// an add-on written to the pre-clone player record would be lost
+	te.lock.Lock()
+	defer te.lock.Unlock()
+
 	// find player index in PlayerStates
 	playerIdx := te.table.FindPlayerIdx(joinPlayer.PlayerID)
 	if playerIdx == UnsetValue {
